@@ -7,12 +7,13 @@ CFG = dict(
         "Inst.gen_blocks_spec: the regenerated refusal test of try_lock/try_lock_with_wait_tracking is the model's `blocks`",
         "Inst.gen_atomic: every LockManager op takes both table guards once before any table access (ops are atomic steps)",
         "Inst.gen_finish_spec: commit/abort/cleanup_timeouts release by transaction id and drop the transaction from the wait-for graph",
+        "Inst.gen_detect_spec: DeadlockDetector::detect calls no mutating method of the wait-for graph (it only observes)",
     ],
     crate="nvh_c12", shard=100,
     header=H + "From NV.Common Require Import LockTable.\nFrom NV.C12 Require Import Model Run.\nOpen Scope N_scope.",
     kinds={"lm": ("lm_case", "check_lm"), "coord": ("lm_case", "check_lm"), "graph": ("graph_case", "check_graph")},
     known_classes={},
-    rule="seeded op sequences on the real LockManager + WaitForGraph (lock/relock/release by tx and by handle/expiry through the clock hook/serialize-restore), coordinator-level prepare/vote/commit/abort/timeout sequences projected on the same ops, every digraph on <= 3 (thorough: 4) transactions plus random wait-for graphs on <= 8 through DeadlockDetector, 2-6 thread stress with a mutual-exclusion oracle, and forced two-thread interleavings (prepare of a waiter against abort/commit/timeout of the holder) through the schedule-point hook",
+    rule="seeded op sequences on the real LockManager + WaitForGraph (lock/relock/release by tx and by handle/expiry through the clock hook/serialize-restore), coordinator-level prepare/vote/commit/abort/timeout sequences projected on the same ops, every digraph on <= 3 (thorough: 4) transactions plus random wait-for graphs on <= 8 through DeadlockDetector, the detection round run 0 ms to 100 s (clock hook; edge_ttl_ms is 30 s) after the relations were recorded and the relations read again afterwards, 2-6 thread stress with a mutual-exclusion oracle, and forced two-thread interleavings (prepare of a waiter against abort/commit/timeout of the holder) through the schedule-point hook",
     trusted_base=COMMON_TB + [
         "guarded clock hook tensor_chain::distributed_tx::verif_clock (commit 317762a3) replaces wall-clock reads by an explicit `now`",
         "guarded schedule-point hook tensor_chain::distributed_tx::verif_sched (commit 04879d59; one point at the entry of WaitForGraph::add_wait) lets the harness hold one thread there while another runs",
